@@ -438,6 +438,11 @@ func (x *exec) applyContract(fr *frame, s *State, con *Contract, sig *types.Sign
 		if e.Local && !(x.con != nil && x.con.Ghost) {
 			continue // `proves` clause: only ghost lemmas over the contract may use it
 		}
+		if len(e.Props) > 0 && x.con != nil && !sharesProp(e.Props, x.con.Props) {
+			// a postcondition tagged for other properties is not used in this proof: its tagged
+			// preconditions were not checked here either
+			continue
+		}
 		// postconditions over the callee's own locals are facts about its body, not about the call
 		if t, ok := x.evalBoolLocalsOpt(e.E, &post); ok {
 			x.assume(s, t)
